@@ -131,7 +131,7 @@ func TestVerifC09(t *testing.T) {
 					fail, tag = fmt.Sprintf("op %d: %s", i, f), tg
 				}
 			}
-			if op == "reopen" && fail == "" && strings.Contains(impl[i], "segs=") {
+			if (op == "reopen" || op == "reopenx") && fail == "" && strings.Contains(impl[i], "segs=") {
 				// a clean restart changes nothing: what a clean removed stays removed, what it kept is there
 				a, b := vParseSegs(impl[pre]), vParseSegs(impl[i])
 				same := len(a) == len(b)
@@ -302,7 +302,12 @@ func TestVerifC09(t *testing.T) {
 			// the server restarts before the cleaner runs: what a segment knows about itself (first /
 			// last write time, counts, position) is then what open() reconstructs from its files
 			res.Dist("reopen-before-clean")
-			prog = append(prog, "reopen")
+			if rnd.Intn(3) == 0 {
+				res.Dist("reopen-with-damaged-index-before-clean")
+				prog = append(prog, "reopenx")
+			} else {
+				prog = append(prog, "reopen")
+			}
 		}
 		prog = append(prog, fmt.Sprintf("clean %d", pickTTL()))
 		if rnd.Intn(3) == 0 {
